@@ -26,8 +26,8 @@ RULE = ("case = family (false: generated design with merged blocks | true: or/an
         "seeded-order variants) + one acyclic-only scheduler that must reject x 4..10 cycles of inputs with dup.block "
         "fixed-point probes; non-trivial = the schedule really contained an SCC super-block (or an expected error was "
         "seen); distinct = case digest")
-TIERS = {"quick": {"runs": 640, "budget_s": 100, "chunk": 4},
-         "thorough": {"runs": 50000, "budget_s": 1800, "chunk": 8}}
+TIERS = {"quick": {"runs": 1600, "budget_s": 100, "chunk": 4},
+         "thorough": {"runs": 250000, "budget_s": 1800, "chunk": 8}}
 REAL = ["DynamicSchedulePass SCC iteration", "Mamba2020Pass SCC meta-blocks", "GenDAGPass constraint_objs",
         "SimpleSchedulePass/HeuristicTopoPass cycle rejection"]
 STUB = ["design generator / loop templates", "integer reference evaluator (false loops only)",
